@@ -78,11 +78,26 @@ def parseBoolText (raw : String) : Option String :=
     non-ASCII letters (kept verbatim by %q) -/
 def goQuote (s : String) : String := "\"" ++ s ++ "\""
 
+/-- `strconv.ParseFloat` + `%v` on the decimal texts the rig sends: `-?digits(.digits)?` written without
+    superfluous zeros is accepted and printed back as written (the rig's values are exactly representable);
+    anything else the rig sends (`abc`, `1.2.3`, `1,5`, the empty text) is refused.  Exponents, hex floats,
+    `inf` / `nan` and signs `+` are NOT modelled and never generated. -/
+def parseFloatText (raw : String) : Option String :=
+  let cs := raw.toList
+  let body := if cs.head? = some '-' then cs.drop 1 else cs
+  let ip := body.takeWhile (· ≠ '.')
+  let rest := body.dropWhile (· ≠ '.')
+  let fp := rest.drop 1
+  let canonInt := !ip.isEmpty && ip.all Char.isDigit && (ip.length = 1 || ip.head? ≠ some '0')
+  let canonFrac := rest.isEmpty || (!fp.isEmpty && fp.all Char.isDigit && fp.getLast? ≠ some '0')
+  if canonInt && canonFrac && raw ≠ "-0" then some raw else none
+
 /-- the text rigrec.Fmt prints for a converted scalar of declared element type `ty`; `enums` are the
     string-based enum types of the project -/
 def convertScalar (enums : List String) (ty raw : String) : Option String :=
   if ty = "string" || enums.contains ty then some (goQuote raw)
   else if ty = "bool" then parseBoolText raw
+  else if ty = "float64" || ty = "float32" then parseFloatText raw
   else parseIntegral ty raw
 
 structure PInfo where
